@@ -1,6 +1,7 @@
 package main
 
 import (
+	"bytes"
 	"context"
 	"database/sql"
 	"fmt"
@@ -27,15 +28,24 @@ type HistSpec struct {
 	CompactAt  int    `json:"compact_at"`  // after this many syncs compact L0->L1 (0 = never)
 	SnapshotAt int    `json:"snapshot_at"` // after this many syncs write a level-9 snapshot (0 = never)
 	CorruptSrc bool   `json:"corrupt_src"` // damage a b-tree page of the *source* database before replication starts
+	// BadImage: take the database image restored from the history's replica, damage it so that SQLite's
+	// integrity PRAGMA itself *errors* (not "result != ok"), and publish it as a checksum-valid snapshot
+	// LTX in a fresh file replica: "magic" (bytes 0..15), "page1hdr" (b-tree header of page 1),
+	// "schema" (sqlite_master SQL text).
+	BadImage string `json:"bad_image,omitempty"`
 }
 
 type replicaEnv struct {
-	root   string
-	dir    string // replica directory (file client)
-	client *file.ReplicaClient
+	badImage []byte // BadImage histories: the damaged image the replica encodes
+	root     string
+	dir      string // replica directory (file client)
+	client   *file.ReplicaClient
 }
 
 func buildReplica(root string, h HistSpec) (*replicaEnv, error) {
+	if h.BadImage != "" {
+		return buildBadImageReplica(root, h)
+	}
 	ctx := context.Background()
 	dbPath := filepath.Join(root, "src", "db")
 	if err := os.MkdirAll(filepath.Dir(dbPath), 0o755); err != nil {
@@ -166,4 +176,74 @@ func buildReplica(root string, h HistSpec) (*replicaEnv, error) {
 // plan returns the latest restore plan of the pristine replica.
 func (e *replicaEnv) plan() ([]*ltx.FileInfo, error) {
 	return litestream.CalcRestorePlan(context.Background(), e.client, 0, zeroTime, quiet)
+}
+
+// damageImage returns a copy of a valid database image that every LTX checksum will cover faithfully
+// but that SQLite refuses to query.
+func damageImage(img []byte, kind string) ([]byte, error) {
+	b := append([]byte(nil), img...)
+	switch kind {
+	case "magic":
+		copy(b[0:16], []byte("NOTsqlite format"))
+	case "page1hdr":
+		b[100] = 0xFF // page type of the sqlite_master root page
+		b[103], b[104] = 0xFF, 0xFF
+	case "schema":
+		i := bytes.Index(b[:min(len(b), 4096)], []byte("CREATE TABLE t "))
+		if i < 0 {
+			return nil, fmt.Errorf("schema text not found in page 1")
+		}
+		copy(b[i:], []byte("CREATE TABLX"))
+	default:
+		return nil, fmt.Errorf("unknown bad image kind %q", kind)
+	}
+	return b, nil
+}
+
+func buildBadImageReplica(root string, h HistSpec) (*replicaEnv, error) {
+	base := h
+	base.BadImage = ""
+	benv, err := buildReplica(filepath.Join(root, "base"), base)
+	if err != nil {
+		return nil, err
+	}
+	img, err := pristineRestore(benv, filepath.Join(root, "base-out"), 0)
+	if err != nil {
+		return nil, fmt.Errorf("restore base image: %w", err)
+	}
+	bad, err := damageImage(img, h.BadImage)
+	if err != nil {
+		return nil, err
+	}
+	if len(bad)%h.PageSize != 0 {
+		return nil, fmt.Errorf("image size %d not a multiple of the page size", len(bad))
+	}
+	var buf bytes.Buffer
+	enc, err := ltx.NewEncoder(&buf)
+	if err != nil {
+		return nil, err
+	}
+	n := uint32(len(bad) / h.PageSize)
+	if err := enc.EncodeHeader(ltx.Header{Version: ltx.Version, Flags: ltx.HeaderFlagNoChecksum, PageSize: uint32(h.PageSize),
+		Commit: n, MinTXID: 1, MaxTXID: 1, Timestamp: 1700000000000}); err != nil {
+		return nil, err
+	}
+	for pg := uint32(1); pg <= n; pg++ {
+		if pg == ltx.LockPgno(uint32(h.PageSize)) {
+			continue
+		}
+		if err := enc.EncodePage(ltx.PageHeader{Pgno: pg}, bad[int(pg-1)*h.PageSize:int(pg)*h.PageSize]); err != nil {
+			return nil, err
+		}
+	}
+	if err := enc.Close(); err != nil {
+		return nil, err
+	}
+	env := &replicaEnv{root: root, dir: filepath.Join(root, "replica")}
+	env.client = file.NewReplicaClient(env.dir)
+	if _, err := env.client.WriteLTXFile(context.Background(), 0, 1, 1, bytes.NewReader(buf.Bytes())); err != nil {
+		return nil, fmt.Errorf("publish bad image: %w", err)
+	}
+	env.badImage = bad
+	return env, nil
 }
